@@ -282,6 +282,9 @@ func TestC18Crash(t *testing.T) {
 					hi = i + 1
 				}
 			}
+			if hi < lo {
+				hi = lo
+			}
 			check := func(img *Disk) error {
 				k2 := kvs.MkKVS(img, sz)
 				got, err := kvsReadAll(k2, sz)
